@@ -128,6 +128,9 @@ def run_query(arr, q):
             return ["ok", [_intf(v) for v in r]]
         if k == "strategy":
             return ["ok", "na"]
+        if k == "slop":
+            r = arr.termfreqs([tok_name(t) for t in q[1]], slop=q[2])
+            return ["ok", [_intf(v) for v in r]]
         if k == "tfr":
             r = arr.termfreqs(tok_name(q[1]), min_posn=q[2], max_posn=q[3])
             return ["ok", [_intf(v) for v in r]]
@@ -157,6 +160,16 @@ def impl_index_queries(case):
         arr = build_array(case)
     except Exception as e:   # noqa
         return {"build_exc": type(e).__name__}
+    if case.get("prescore"):
+        # a history before the queries: score every queried term first (the default BM25 works in place on
+        # the tf vector it is given), then ask; answers must not depend on it
+        for q in case.get("queries", []):
+            if q[0] == "tf":
+                try:
+                    arr.score(tok_name(q[1]))
+                    arr.docfreq(tok_name(q[1]))
+                except Exception:      # noqa
+                    pass
     return {"q": [run_query(arr, q) for q in case.get("queries", [])],
             "x": [run_query(arr, q) for q in case.get("xqueries", [])]}
 
